@@ -58,3 +58,12 @@ package waiter
 //@   ensures implies(k == 1, result == m0)
 //@   ensures implies(k == 2, result == m0 | m1)
 //@   ensures implies(k == 3, result == m0 | m1 | m2)
+
+// C17 (channel-backed entries): the channel such an entry notifies is the one supplied, or a
+// new channel with room for exactly one token - so the non-blocking send of the callback
+// leaves a token whenever the channel was empty and never blocks. (That a token stays until the
+// waiter takes it is a statement about the channel's history, which contracts do not express.)
+//@ func NewChannelEntry props C17
+//@   ensures implies(c != nil, result2 == c)
+//@   ensures implies(c == nil, result2 != nil && chancap(result2) == 1)
+//@   ensures result1.Callback != nil
